@@ -5,8 +5,8 @@ updates meta.json['now'].  usage: tools/check_benign.py [id ...]"""
 import json, os, subprocess, sys, tempfile, shutil
 HERE = os.path.dirname(os.path.dirname(os.path.abspath(__file__)))
 ids = sys.argv[1:] or sorted(os.listdir(os.path.join(HERE, "benign")))
-wt = tempfile.mkdtemp(prefix="benwt-"); os.rmdir(wt)
-subprocess.check_call(["git", "-C", "/repo", "worktree", "add", "-q", "--detach", wt, "HEAD"])
+wt = tempfile.mkdtemp(prefix="benwt-")
+shutil.copytree("/repo/mako", os.path.join(wt, "mako"), ignore=shutil.ignore_patterns("__pycache__"))
 bad = 0
 try:
     for bid in ids:
@@ -14,7 +14,7 @@ try:
         if not os.path.exists(os.path.join(d, "meta.json")):
             continue
         meta = json.load(open(os.path.join(d, "meta.json")))
-        r = subprocess.run(["git", "-C", wt, "apply", os.path.join(d, "change.diff")], capture_output=True, text=True)
+        r = subprocess.run(["git", "apply", os.path.join(d, "change.diff")], cwd=wt, capture_output=True, text=True)
         if r.returncode != 0:
             print(bid, "PATCH-DOES-NOT-APPLY"); continue
         env = dict(os.environ, VERIF_REPO=wt, VERIF_EVIDENCE_DIR=os.path.join(wt, "_ev"), VERIF_OUT_DIR=os.path.join(wt, "_vout"))
@@ -26,9 +26,7 @@ try:
         for a in alarms:
             print("      " + a[:260])
         bad += len(alarms)
-        subprocess.check_call(["git", "-C", wt, "checkout", "-q", "--", "."])
-        subprocess.run(["git", "-C", wt, "clean", "-fdq"])
+        shutil.rmtree(os.path.join(wt, "mako")); shutil.copytree("/repo/mako", os.path.join(wt, "mako"), ignore=shutil.ignore_patterns("__pycache__"))
 finally:
-    subprocess.run(["git", "-C", "/repo", "worktree", "remove", "--force", wt])
     shutil.rmtree(wt, ignore_errors=True)
 sys.exit(1 if bad else 0)
